@@ -172,6 +172,46 @@ pub fn run(args: &Args, rec: &mut Recorder) {
             rec.bump(&format!("probe.{}", label.split(" depth").next().unwrap_or("")));
             return None;
         }
+        if case % 64 == 41 {
+            // a main file that consists of include directives only, whose files hold no token at all
+            // (empty, white space, comments) or hardly any: the token list of the load is empty or
+            // starts in an include file
+            let root = scratch.join(format!("c03inc_{case}"));
+            let _ = std::fs::remove_dir_all(&root);
+            std::fs::create_dir_all(&root).unwrap();
+            let n = rng.urange(1, 3);
+            let mut main_text = String::new();
+            let mut all = String::new();
+            for k in 0..n {
+                let content = *rng.pick(&["", " ", "\n\n", "\t \r\n", "/* nothing */", "// nothing\n", "ASAP2_VERSION 1 71", "x"]);
+                std::fs::write(root.join(format!("blank{k}.a2l")), content).unwrap();
+                let sep = *rng.pick(&["\n", " ", "\n\n  "]);
+                main_text.push_str(&format!("/include blank{k}.a2l{sep}"));
+                all.push_str(content);
+            }
+            let main = root.join("main.a2l");
+            std::fs::write(&main, &main_text).unwrap();
+            rec.eval();
+            rec.bump("gen.only_includes_of_blank_files");
+            rec.nontrivial(format!("{main_text}|{all}").as_bytes());
+            let strict = rng.coin();
+            crate::util::set_budget(1_000_000);
+            let r = guarded(|| a2lfile::load(&main, None, strict).map(|_| ()));
+            crate::util::reset_budget();
+            if let Err((sig, detail)) = r {
+                rec.violation(
+                    &sig,
+                    &detail,
+                    Json::obj()
+                        .with("generator", Json::s("only_includes_of_blank_files"))
+                        .with("main", Json::s(&main_text))
+                        .with("contents", Json::s(&all))
+                        .with("strict", Json::Bool(strict)),
+                );
+            }
+            let _ = std::fs::remove_dir_all(&root);
+            return None;
+        }
         if case % 64 == 9 {
             // a valid document split over a tree of include files, loaded from disk
             if let Some(main) = crate::c16::make_tree(rng, &g, &scratch, case) {
